@@ -40,7 +40,7 @@ import asynq
 import qcore
 import typeshed_client
 from qcore.testing import Anything
-from typing_extensions import Protocol, get_args, get_origin
+from typing_extensions import Protocol, Unpack, get_args, get_origin
 
 from . import attributes, format_strings, importer, node_visitor, type_evaluation
 from .analysis_lib import get_attribute_path
@@ -359,6 +359,15 @@ class _StarredValue(Value):
     def __init__(self, value: Value, node: ast.AST) -> None:
         self.value = value
         self.node = node
+
+    def unpack_annotation(self) -> Value:
+        """In an annotation, "*tuple[int, str]" means "Unpack[tuple[int, str]]" (PEP 646)."""
+        if isinstance(self.value, KnownValue):
+            try:
+                return KnownValue(Unpack[self.value.val])
+            except Exception:
+                pass
+        return self
 
 
 @dataclass(init=False)
@@ -2492,6 +2501,8 @@ class NameCheckVisitor(node_visitor.ReplacingNodeVisitor):
     def _visit_annotation(self, node: ast.AST) -> Value:
         with qcore.override(self, "in_annotation", True):
             val = self.visit(node)
+            if isinstance(val, _StarredValue):
+                val = val.unpack_annotation()
             self.check_for_missing_generic_params(node, val)
             return val
 
@@ -3342,6 +3353,8 @@ class NameCheckVisitor(node_visitor.ReplacingNodeVisitor):
             elts = []
             for elt in node.elts:
                 val = self.visit(elt)
+                if isinstance(val, _StarredValue):
+                    val = val.unpack_annotation()
                 self.check_for_missing_generic_params(elt, val)
                 elts.append(val)
         else:
